@@ -31,7 +31,7 @@ ASSUMED: Reaction.annotation.get('sbo', '') (str or non-empty list, ghost), str.
 Reaction.compartments (ghost relation), Reaction.boundary (C17 ghost flag), Model.boundary (the members with the flag, inlined list
 comprehension), find_external_compartment (pandas heuristic: returns a string or raises RuntimeError), DictList.query(callable).
 
-Mutation trials: see MUTANTS at the end of c18_minmedium.py.
+Mutation trials: listed under MUTANTS in the docstring of c18_minmedium.py.
 """
 import z3
 from .common import *  # noqa
